@@ -42,7 +42,8 @@ WRITE = (P.Insert, P.Update, P.Delete)
 
 
 def is_write(ev: Event) -> bool:
-    return ev.kind in ('execute', 'executemany') and isinstance(ev.extra.get('stmt'), WRITE)
+    return ev.kind in ('execute', 'executemany') and (isinstance(ev.extra.get('stmt'), WRITE)
+                                                      or ev.extra.get('leading_with'))
 
 
 def typestate_obligations(name: str, out, fn, single_block: bool = True, known_close: bool = False,
@@ -73,6 +74,11 @@ def typestate_obligations(name: str, out, fn, single_block: bool = True, known_c
             bad_events.append(ev.kind)
         elif is_write(ev):
             first_write_seen = True
+            if ev.extra.get('leading_with'):
+                # Python's sqlite3 (default isolation_level) opens the implicit transaction only before statements
+                # that START with INSERT / UPDATE / DELETE / REPLACE: a CTE-prefixed write runs in autocommit mode
+                # and is committed at once, `with conn:` notwithstanding (A-TXN does not cover it)
+                bad_events.append('write statement starting with WITH: no implicit BEGIN, committed immediately')
             if depth != 1:
                 bad_outside.append(_sql(ev))
             write_blocks.add(blocks)
